@@ -69,6 +69,173 @@ func runC05(p *load.Program, r *oblig.Report) {
 	// C02.R6; the same obligations are part of this property's "same records and absolute offsets" clause
 	shareRules(r, "C05", "C05.R9 Conn path reconstructs absolute offsets", func(sub *oblig.Report) { c02MessageReader(p, sub) })
 	varintAcrossRefills(p, r, "C05.R10 a varint split across two buffer fills keeps its low bits")
+	c05TimestampDelta(p, r)
+	c05WrapperOffsets(p, r)
+	c05StandaloneReadFrom(p, r)
+}
+
+// c05StandaloneReadFrom: RecordSet.ReadFrom is also the public io.ReaderFrom of a record set. Inside a message the
+// announced size is bounded by the bytes left in the enclosing decoder; a reader that is not a decoder has no
+// enclosing frame (ReadFrom gives it a 4-byte budget for the size prefix only), so there the bound is the announced
+// size itself — otherwise every non-empty record set read from a plain reader is refused.
+func c05StandaloneReadFrom(p *load.Program, r *oblig.Report) {
+	const rule = "C05.R13 a record set read from a plain reader is limited by the size it announces"
+	fn := p.Func("protocol", "(*RecordSet).ReadFrom")
+	if fn == nil {
+		r.Lost(rule, "protocol.(*RecordSet).ReadFrom")
+		return
+	}
+	// the bail-out: size compared with a bound, leading to an error return
+	found := ""
+	ok := false
+	n := 0
+	for _, b := range an.Blocks(fn) {
+		_, ci := an.IfCond(b)
+		if ci == nil || (ci.Op != token.LSS && ci.Op != token.GTR && ci.Op != token.LEQ && ci.Op != token.GEQ) {
+			continue
+		}
+		x, y := clean(an.Shape(ci.X)), clean(an.Shape(ci.Y))
+		var bound ssa.Value
+		switch {
+		case strings.HasPrefix(x, "int(readInt32(") && !strings.HasPrefix(y, "int(readInt32(") && (strings.Contains(y, ".remain") || strings.Contains(y, "φ")):
+			bound = ci.Y
+		case strings.HasPrefix(y, "int(readInt32(") && !strings.HasPrefix(x, "int(readInt32(") && (strings.Contains(x, ".remain") || strings.Contains(x, "φ")):
+			bound = ci.X
+		default:
+			continue
+		}
+		n++
+		found = clean(an.Shape(bound))
+		ph, isPhi := bound.(*ssa.Phi)
+		if !isPhi {
+			continue
+		}
+		hasRemain, hasSize := false, false
+		for _, e := range ph.Edges {
+			es := clean(an.Shape(e))
+			if strings.Contains(es, ".remain") {
+				hasRemain = true
+			}
+			if strings.HasPrefix(es, "int(readInt32(") {
+				hasSize = true
+			}
+		}
+		ok = hasRemain && hasSize
+	}
+	r.Check(n > 0 && ok, rule, "protocol.(*RecordSet).ReadFrom bounds the announced size by the enclosing decoder's remaining bytes, or by itself for a plain reader", p.Pos(fn.Pos()),
+		"remain := d.remain; if the reader is not a decoder { remain = int(size) }; if int(size) > remain { error }", "bound: "+found)
+}
+
+// c05WrapperOffsets: the inner messages of a v1 compressed wrapper carry relative offsets; the wrapper's own offset is
+// the absolute offset of the last inner message. Compaction leaves holes in the relative offsets, so the base is
+// wrapper offset − relative offset of the last inner message (what the Conn path computes in extractOffset), never
+// wrapper offset − (number of inner messages − 1).
+func c05WrapperOffsets(p *load.Program, r *oblig.Report) {
+	const rule = "C05.R12 inner offsets of a v1 wrapper are rebuilt from the last inner offset"
+	fn := p.Func("protocol", "(*RecordSet).readFromVersion1")
+	if fn == nil {
+		r.Lost(rule, "protocol.(*RecordSet).readFromVersion1")
+	} else {
+		n := 0
+		var bad []string
+		an.EachInstr(fn, func(ins ssa.Instruction) {
+			st, ok := ins.(*ssa.Store)
+			if !ok {
+				return
+			}
+			fa, ok := st.Addr.(*ssa.FieldAddr)
+			if !ok || an.FieldName(fa.X.Type(), fa.Field) != "Offset" {
+				return
+			}
+			if _, isIdx := fa.X.(*ssa.IndexAddr); !isIdx {
+				return // the literal of a freshly decoded record
+			}
+			n++
+			sh := clean(an.Shape(st.Val))
+			// wrapper − (L − rel): L must itself be an inner message's offset (a load of some record's Offset)
+			okL := false
+			if outer, isB := st.Val.(*ssa.BinOp); isB && outer.Op == token.SUB {
+				if inner, isB2 := outer.Y.(*ssa.BinOp); isB2 && inner.Op == token.SUB {
+					if ld, isLd := inner.X.(*ssa.UnOp); isLd && ld.Op == token.MUL {
+						if fa2, isFA := ld.X.(*ssa.FieldAddr); isFA && an.FieldName(fa2.X.Type(), fa2.Field) == "Offset" {
+							okL = true
+						}
+					}
+					if ph, isPhi := inner.X.(*ssa.Phi); isPhi {
+						okL = strings.Contains(clean(an.Shape(ph)), ".Offset")
+					}
+				}
+			}
+			if !okL {
+				bad = append(bad, p.Pos(st.Pos())+": "+sh)
+			}
+		})
+		r.Check(n > 0 && len(bad) == 0, rule, "protocol.(*RecordSet).readFromVersion1 → absolute = wrapper offset − (last inner offset − inner offset)", p.Pos(fn.Pos()),
+			"lastRelativeOffset is the offset of the last inner message, not the count of inner messages − 1", strings.Join(bad, "; "))
+	}
+	ex := p.Func("", "extractOffset")
+	if ex == nil {
+		r.Lost(rule, "kafka.extractOffset")
+		return
+	}
+	shapes := returnShapes(ex)
+	okConn := false
+	for _, s := range shapes {
+		if strings.HasPrefix(clean(s), "(base - ") && !strings.Contains(s, "len(") {
+			okConn = true
+		}
+	}
+	r.Check(okConn, rule, "kafka.extractOffset → base of a wrapper = wrapper offset − offset of the last inner message", p.Pos(ex.Pos()), "offset = base - <last inner offset read>", strings.Join(shapes, " ;; "))
+}
+
+// c05TimestampDelta: a v2 record carries its timestamp as a delta to the batch's first timestamp, both in
+// milliseconds. The delta must be the difference of the two millisecond timestamps (as the reflective writer
+// computes it: timestamp(r.Time) - firstTimestamp): the difference of the two times converted to milliseconds
+// afterwards is off by one whenever the sub-millisecond parts carry, and a helper meant for time-outs clamps it.
+func c05TimestampDelta(p *load.Program, r *oblig.Report) {
+	const rule = "C05.R11 a record's timestamp delta is the difference of millisecond timestamps"
+	fn := p.Func("", "(*writeBuffer).writeRecord")
+	if fn == nil {
+		r.Lost(rule, "kafka.(*writeBuffer).writeRecord")
+		return
+	}
+	var varints []*ssa.Call
+	an.EachInstr(fn, func(ins ssa.Instruction) {
+		if c, ok := ins.(*ssa.Call); ok && c.Parent() == fn && c.Call.StaticCallee() != nil && an.RefFuncName(c.Call.StaticCallee()) == "writeVarInt" {
+			varints = append(varints, c)
+		}
+	})
+	sort.SliceStable(varints, func(i, j int) bool { return an.Dominates(varints[i], varints[j]) && varints[i] != varints[j] })
+	if len(varints) < 3 {
+		r.Lost(rule, "writeVarInt calls of kafka.(*writeBuffer).writeRecord")
+		return
+	}
+	// record length, (attributes), timestamp delta, offset delta
+	delta := an.Unwrap(varints[1].Call.Args[len(varints[1].Call.Args)-1])
+	isTS := func(v ssa.Value) bool {
+		c, ok := an.Unwrap(v).(*ssa.Call)
+		return ok && c.Call.StaticCallee() != nil && an.RefFuncName(c.Call.StaticCallee()) == "timestamp"
+	}
+	bo, isSub := delta.(*ssa.BinOp)
+	ok := isSub && bo.Op == token.SUB && isTS(bo.X) && isTS(bo.Y)
+	r.Check(ok, rule, "kafka.(*writeBuffer).writeRecord writes timestamp(msg.Time) - timestamp(baseTime)", p.Pos(varints[1].Pos()),
+		"the delta is computed on millisecond timestamps, like protocol.(*RecordSet).writeToVersion2 does", clean(an.Shape(delta)))
+	// the reflective writer, for reference
+	w2 := p.Func("protocol", "(*RecordSet).writeToVersion2")
+	if w2 == nil {
+		r.Lost(rule, "protocol.(*RecordSet).writeToVersion2")
+		return
+	}
+	okRef := false
+	an.EachInstrDeep(w2, func(_ *ssa.Function, ins ssa.Instruction) {
+		if b2, isB := ins.(*ssa.BinOp); isB && b2.Op == token.SUB && isTS(b2.X) {
+			okRef = true
+		}
+		if b2, isB := ins.(*ssa.BinOp); isB && b2.Op == token.SUB && strings.Contains(clean(an.Shape(b2.X)), "timestamp(") {
+			okRef = true
+		}
+	})
+	r.Check(okRef, rule, "protocol.(*RecordSet).writeToVersion2 writes timestamp(r.Time) - firstTimestamp", p.Pos(w2.Pos()), "t - firstTimestamp with t = timestamp(r.Time)", "not recognised")
 }
 
 // varintAcrossRefills: readVarInt consumes the buffered bytes and, when the varint continues in bytes that are not
